@@ -741,6 +741,9 @@ func (s *programState) makeAllotment(monetary *big.Int, items []parser.Allotment
 	for i, item := range items {
 		switch allotment := item.(type) {
 		case *parser.RatioLiteral:
+			if allotment.HasZeroDenominator() {
+				return nil, BadPortionParsingErr{Reason: "division by zero", Range: allotment.Range}
+			}
 			rat := allotment.ToRatio()
 			totalAllotment.Add(totalAllotment, rat)
 			allotments = append(allotments, rat)
